@@ -9,6 +9,7 @@ import (
 	"bytes"
 	"compress/flate"
 	"compress/gzip"
+	"compress/zlib"
 	"encoding/json"
 	"fmt"
 	"math/rand"
@@ -37,14 +38,14 @@ import (
 type ReqKind struct {
 	Method   string `json:"method"`
 	Framing  string `json:"framing"` // none | cl0 | cl | chunked
-	Ct       string `json:"ct"`      // none | form | multipart | text | json | binary
+	Ct       string `json:"ct"`      // none | form | formbad | multipart | text | json | binary
 	Enc      string `json:"enc"`     // identity | gzip
 	Trailers bool   `json:"trailers"`
 }
 type ResKind struct {
 	Framing  string `json:"framing"` // cl0 | cl | chunked | close
 	Ct       string `json:"ct"`      // none | text | json | binary
-	Enc      string `json:"enc"`     // identity | gzip | deflate | unknown
+	Enc      string `json:"enc"`     // identity | gzip | deflate (raw) | zlib (labelled deflate) | unknown
 	Trailers bool   `json:"trailers"`
 	Redirect bool   `json:"redirect"`
 }
@@ -83,7 +84,7 @@ var listed = []string{"text/", "application/json"}
 
 func ctHeader(ct string, boundary string) string {
 	switch ct {
-	case "form":
+	case "form", "formbad":
 		return "application/x-www-form-urlencoded"
 	case "multipart":
 		return "multipart/form-data; boundary=" + boundary
@@ -143,6 +144,10 @@ func encode(enc string, plain []byte) []byte {
 		w, _ := flate.NewWriter(&buf, flate.DefaultCompression)
 		w.Write(plain)
 		w.Close()
+	case "zlib":
+		w := zlib.NewWriter(&buf)
+		w.Write(plain)
+		w.Close()
 	default:
 		return plain
 	}
@@ -153,6 +158,8 @@ func encHeader(enc string) string {
 	switch enc {
 	case "gzip", "deflate":
 		return enc
+	case "zlib":
+		return "deflate"
 	case "unknown":
 		return "x-verif-coding"
 	}
@@ -206,6 +213,9 @@ func (e *Exch) Concretise(rng *rand.Rand, originAddr string) {
 					e.params = append(e.params, har.Param{Name: k, Value: x})
 				}
 			}
+		case "formbad":
+			// labelled as a form, but not one (a stray percent sign, a semicolon)
+			e.reqPlain = append([]byte("a=%zz&b=1;c=2&d="), textBody(rng, n)...)
 		case "multipart":
 			var buf bytes.Buffer
 			mw := multipart.NewWriter(&buf)
